@@ -155,7 +155,8 @@ Definition dispatch (f : Z) (x : sx) : sx :=
          else if k =? 1 then e_value_position e (VOff a)
          else e_value_position e (VTuple a b))
   | 5 => (* text-level lint: [j0; text; ref_text?; checker?; format]  checker = results by
-            start offset; format 0 .properties, 1 .ini *)
+            start offset; format 0 .properties, 1 .ini, 2 .dtd with the table raw -> html.unescape(raw)
+            as sixth element *)
       let res := to_option to_results (nth_sx 3 x) in
       let chk := option_map (fun r => (fun (e : @entity str) (_ : @entity str) =>
                                  match assoc Nat.eqb (e_id e) r with Some l => l | None => [] end)) res in
@@ -164,6 +165,10 @@ Definition dispatch (f : Z) (x : sx) : sx :=
       let ref := to_option to_str (nth_sx 2 x) in
       of_result (of_list of_finding_s)
         (if to_Z (nth_sx 4 x) =? 1 then lint_ini j0 chk text ref
+         else if to_Z (nth_sx 4 x) =? 2 then
+           let tbl := to_list (to_pair to_str to_str) (nth_sx 5 x) in
+           lint_dtd (fun raw => match assoc str_eqb raw tbl with Some u => u | None => raw end)
+                    j0 chk text ref
          else lint_properties j0 chk text ref)
   | _ => sx_err
   end.
